@@ -1930,12 +1930,20 @@ impl Scenario for ExitContract {
             if rng.chance(1, 2) {
                 v.push("-d".into());
             }
+            if rng.chance(1, 2) {
+                // a view of one link only: the reader skips the others, and meets the broken RDH while skipping
+                v.extend(Filter::Link(st.links[rng.usize_below(st.links.len())].link_id).args());
+            }
             other(v, &mut rng);
             let mut wr = Filter::Link(st.links[rng.usize_below(st.links.len())].link_id).args();
             if rng.chance(1, 2) {
                 wr.extend(s(&["-o", "@OUT@"]));
             }
             other(wr, &mut rng);
+            // the check itself on one link only
+            let mut ck = s(CHECK_MODES[mode_i]);
+            ck.extend(Filter::Link(st.links[rng.usize_below(st.links.len())].link_id).args());
+            other(ck, &mut rng);
         }
         let label = format!("{class} | {} | -E {}", CHECK_MODES[mode_i].join(" "), if exit_code.is_some() { "n" } else { "absent" });
         Trial::ExitContract { specs, kinds, class: class.to_string(), exit_code, label }
